@@ -169,6 +169,24 @@ def run(F, R, tier):
             elif kind in ("block",) or kind is None:
                 # statement position (dropped) or tail value of a helper returning io::Result
                 det = "result is dropped"
+                # ... unless it is the value of the block / arm / branch, and that value is bound to a local that is matched
+                cur = x
+                while True:
+                    up = par.get(id(cur))
+                    if up is None:
+                        break
+                    uk = up.get("k")
+                    if (uk == "block" and up.get("expr") is cur) or (uk == "match" and not H.is_try(up) and up["scrut"] is not cur) or \
+                            (uk == "if" and (up.get("t") is cur or up.get("e") is cur)):
+                        cur = up
+                        continue
+                    break
+                if cur is not x and up is not None and up.get("k") == "let" and up.get("init") is cur and up.get("pat", {}).get("k") == "bind":
+                    lid = up["pat"]["id"]
+                    ms = [m for m in H.walk(b) if m.get("k") == "match" and not H.is_try(m) and H.local_id(H.strip(m["scrut"])) == lid]
+                    if len(ms) == 1:
+                        ok, det = classify_match(ms[0])
+                        det = "value of a block bound to `%s`, then: %s" % (up["pat"]["name"], det)
             R.ob("io-result-consumed", key, ok, det, loc)
     # error-discarding adaptors: `Result::ok` / `.ok()` / `.unwrap_or*()` / `.flatten()` applied to an io::Result (also as a
     # function value handed to an iterator adaptor: `bytes().map_while(Result::ok)`, `lines().filter_map(Result::ok)`)
